@@ -1,10 +1,78 @@
+(* C01 -- Octet transfers deliver exactly the file under any network behaviour.
+   Statements only; proofs in Tftp/TransferProofs.v and Tftp/NegotiateProofs.v. *)
 From Coq Require Import List NArith ZArith Bool.
-From NV Require Import Gen.Tftp.
+From NV Require Import Lib.Res Gen.Tftp Tftp.Packet Tftp.Transfer Tftp.TransferProofs Tftp.NegotiateProofs.
+Import ListNotations.
 Open Scope N_scope.
+
+(* decision points regenerated from tftpd.py / tftp.py on every run *)
 Theorem C01_source_facts :
   (forall s bs, gen_finished_cmp s bs = (s <? bs)) /\
   (forall r n, gen_next_block_cmp r n = (r + 1 =? n)) /\
   (forall n r, gen_already_acked_cmp n r = (n <=? r)) /\
+  (data_block_min, data_block_max) = (1, 65535) /\
   tftp_def_blksize = 512 /\ client_open_mode_rb = true /\ client_state_defaults_standard = true.
 Proof. repeat split; reflexivity. Qed.
 Print Assumptions C01_source_facts.
+
+(* For every file F, every block size B >= 1, every reachable transfer state and
+   EVERY schedule (any list of datagrams from any endpoints and timer ticks, so loss,
+   duplication, delay and reordering of client packets, ACKs for past / current /
+   future blocks, garbage, foreign packets): every packet the transfer emits -- reply
+   or retransmission -- that is a DATA k carries exactly bytes [(k-1)B, kB) of F with
+   1 <= k <= 65535, and the invariant is kept. *)
+Theorem C01_data_sound : forall (F : bytes) (B : N), 1 <= B -> forall evs st,
+  Inv F B st ->
+  (forall p, In p (fst (run st evs)) -> sound F B p) /\ Inv F B (snd (run st evs)).
+Proof. exact data_sound. Qed.
+Print Assumptions C01_data_sound.
+
+(* an accepted octet request starts in such a state, whatever options it carried *)
+Theorem C01_accepted_request_inv : forall resolve addr f m o fl now content st p,
+  resolve f = RFile content -> list_eqb_N m tftp_netascii_name = false ->
+  do_RRQ resolve addr f m o fl now = Started st p ->
+  1 <= ts_block_size st /\ Inv content (ts_block_size st) st /\ sound content (ts_block_size st) p.
+Proof. exact accepted_request_inv. Qed.
+Print Assumptions C01_accepted_request_inv.
+
+(* only the last block is short (empty when the length is a multiple of B) *)
+Theorem C01_short_only_last : forall (F : bytes) (B : N), 1 <= B -> forall k d,
+  sound F B (DATA k d) -> (length d < Bn B)%nat ->
+  ((N.to_nat k - 1) * Bn B + length d = length F)%nat.
+Proof. exact short_only_last. Qed.
+Print Assumptions C01_short_only_last.
+
+(* an RFC 1350 client fed ANY sequence of datagrams, each either a sound packet of
+   this transfer (any subsequence, order, repetition) or anything at all from another
+   TID: its buffer is always the prefix it has acknowledged, and equals F when it finishes *)
+Theorem C01_client_reconstructs : forall (F : bytes) (B : N), 1 <= B -> forall tid ds,
+  (forall from p, In (from, p) ds -> from = tid -> sound F B p) ->
+  let c := client_run B tid client_init ds in
+  c_buf c = firstn ((N.to_nat (c_expect c) - 1) * Bn B) F /\ (c_finished c = true -> c_buf c = F).
+Proof. exact client_reconstructs. Qed.
+Print Assumptions C01_client_reconstructs.
+
+(* a file that does not fit in 65535 blocks is never delivered wrapped or truncated ... *)
+Theorem C01_no_wrap : forall (F : bytes) (B : N), 1 <= B -> forall tid ds,
+  65535 * B <= N.of_nat (length F) ->
+  (forall from p, In (from, p) ds -> from = tid -> sound F B p) ->
+  c_finished (client_run B tid client_init ds) = false /\
+  c_expect (client_run B tid client_init ds) <= 65536.
+Proof. exact no_wrap. Qed.
+Print Assumptions C01_no_wrap.
+
+(* ... and the acknowledgement of block 65535 is answered by an ERROR, ending the transfer *)
+Theorem C01_no_wrap_error : forall st d st2,
+  get_block 65536 (ack 65535 st) = Ok (d, st2) ->
+  do_ACK 65535 st = (set_done st2, Some (handle_exn ValueError)).
+Proof. exact no_wrap_error. Qed.
+Print Assumptions C01_no_wrap_error.
+
+Example C01_nonvacuous :
+  let F := [1;2;3;4;5;6;7;8;9;10] in
+  let st0 := new_state 7 F tftp_binary_name 0%Z in
+  exists st p, do_RRQ (fun _ => RFile F) 7 [102] tftp_binary_name [(tftp_blksize_name, OStr [56])] (Err ValueError) 0%Z = Started st p
+    /\ ts_block_size st = 8
+    /\ fst (run st [EvPacket 7 [0;4;0;0] 5%Z; EvPacket 9 [0;4;0;1] 6%Z; EvPacket 7 [0;4;0;1] 7%Z]) =
+       [DATA 1 [1;2;3;4;5;6;7;8]; DATA 2 [9;10]].
+Proof. cbn zeta. eexists. eexists. split; [reflexivity|]. split; reflexivity. Qed.
